@@ -39,6 +39,9 @@ CHECKS = {
     "C14": dict(level="translation_validation", tech=TV + "; mutation-heavy generator profile, every live variable returned",
                 text="Programs built from let mut / (compound) assignment through nested accessors with constant and input-dependent indices, aggregate copies, mutation in branches/arms/loops/callees and shadowing: output (all live variables) equals the by-value reference for all inputs.",
                 note="As C01.", ref="DESIGN.md section 4, C14"),
+    "C16": dict(level="model_checking", tech="bounded model checking of the real Rust code with Kani/CBMC: validate() => eval() safe, over symbolic circuit contents for concrete shapes; counterexamples rebuilt from concrete playback and replayed natively",
+                text="The real Circuit::validate/eval and register_circuit::Circuit::validate/eval are executed symbolically by CBMC with every gate/instruction field, output index, max_reg_count and input bit symbolic; for each concrete shape the solver shows that no validated circuit makes eval panic, index out of bounds, read an undefined register or return a wrong number of bits. Unwinding assertions on; cover witnesses guard against vacuity. Bounded: shapes up to 3 parties / 4 instructions / 2 outputs.",
+                note="Trusted: Kani 0.68 / CBMC 6.11 (cadical). Shapes are concrete (symbolic Vec lengths do not get through CBMC here); max_reg_count <= 4. 'Validation accepts every compiler/converter output' is asserted concretely on generated programs.", ref="DESIGN.md section 4, C16"),
     "C17": dict(level="translation_validation", tech="SMT pattern semantics: z3 decides refutability of each let/for pattern over all values and is compared with the real checker's verdict",
                 text="ONE rule of C17 only: a refutable pattern in `let`/`for` is rejected exactly when z3 finds a value that does not match it; accepted patterns bind the right components for all values.",
                 note="All other static rules of C17 have no value dimension and the checker cannot be executed symbolically; they are outside the claim.", ref="DESIGN.md section 4, C17"),
